@@ -1172,3 +1172,91 @@ func ruleC18j(c *Ctx) {
 		c.undecided("-", "route admission", "-", "no place found where a selector takes a route of the service's table into its candidates")
 	}
 }
+
+// ---------------------------------------------------------------------------
+// C03.g: the candidates a selector collects from the service's route table are ranked before they are handed on: the
+// function that admits routes (C18.j's sites) hands the collection to sort.Sort / sort.Stable / sort.Slice. "Only the
+// best one is needed, move it to the front" leaves the rest in registration order, and the stage that follows picks
+// the first survivor of the method and media filters - which then depends on that order.
+func ruleCandidatesRanked(c *Ctx) {
+	p := c.P
+	cg := p.callGraph()
+	seen := map[*ssa.Function]bool{}
+	var scope []*ssa.Function
+	for _, sel := range moduleSelectors(p) {
+		for fn := range cg.reach([]*ssa.Function{sel}, func(e Edge) bool { return e.Kind != EdgeStatic }) {
+			if !seen[fn] && fn.Blocks != nil && p.inModule(fn) {
+				seen[fn] = true
+				scope = append(scope, fn)
+			}
+		}
+	}
+	sort.Slice(scope, func(i, j int) bool { return p.fname(scope[i]) < p.fname(scope[j]) })
+	sites := sortSites(p)
+	n := 0
+	for _, fn := range scope {
+		cyc := blocksOnCycles(fn)
+		var admission ssa.Instruction
+		var collType types.Type
+		eachInstr(fn, func(i ssa.Instruction) {
+			call, ok := i.(*ssa.Call)
+			if !ok || !cyc[i.Block()] {
+				return
+			}
+			var elems []ssa.Value
+			var ct types.Type
+			if isBuiltinCall(call, "append") && isCandidateSliceType(call.Type()) && len(call.Call.Args) > 1 {
+				ct = call.Type()
+				if sl, ok := strip(call.Call.Args[1]).(*ssa.Slice); ok {
+					if a, ok := sl.X.(*ssa.Alloc); ok {
+						for _, ref := range referrers(a) {
+							if ia, ok := ref.(*ssa.IndexAddr); ok {
+								for _, rr := range referrers(ia) {
+									if st, ok := rr.(*ssa.Store); ok && st.Addr == ssa.Value(ia) {
+										elems = append(elems, st.Val)
+									}
+								}
+							}
+						}
+					}
+				}
+			} else if cal := call.Call.StaticCallee(); cal != nil && cal != fn && p.inModule(cal) && appendsParamToReceiver(cal) && len(call.Call.Args) > 1 {
+				elems = append(elems, call.Call.Args[1])
+				if pt, ok := call.Call.Args[0].Type().Underlying().(*types.Pointer); ok {
+					ct = pt.Elem()
+				}
+			}
+			for _, e := range elems {
+				if fromRouteTable(p, e, 0) {
+					admission, collType = i, ct
+				}
+			}
+		})
+		if admission == nil {
+			continue
+		}
+		n++
+		ranked := false
+		for _, s := range sites {
+			if s.Fn != fn {
+				continue
+			}
+			st := s.Coll.Type()
+			if pt, ok := st.Underlying().(*types.Pointer); ok {
+				st = pt.Elem()
+			}
+			if collType == nil || types.Identical(st, collType) || mentionsRoute(st, 0) {
+				ranked = true
+			}
+			if es := elemStruct(s.Coll.Type()); es != nil {
+				ranked = true
+			}
+		}
+		c.check(ranked, p.fname(fn), "the candidates taken from the route table are sorted before they are handed on", p.ipos(admission),
+			"the collecting function hands the collection to sort.Sort/sort.Stable/sort.Slice",
+			"the routes admitted here are not ranked as a whole (no sort of the collection in this function): behind the best one they keep registration order, and the first survivor of the method and media filters depends on that order")
+	}
+	if n == 0 {
+		c.undecided("-", "route admission", "-", "no place found where a selector takes routes of the service's table into a candidate collection")
+	}
+}
